@@ -1,21 +1,36 @@
 gen/Consts.vo gen/Consts.glob gen/Consts.v.beautified gen/Consts.required_vo: gen/Consts.v 
 gen/Consts.vio: gen/Consts.v 
 gen/Consts.vos gen/Consts.vok gen/Consts.required_vos: gen/Consts.v 
+gen/Hash_vectors.vo gen/Hash_vectors.glob gen/Hash_vectors.v.beautified gen/Hash_vectors.required_vo: gen/Hash_vectors.v theories/Base.vo theories/Hash.vo
+gen/Hash_vectors.vio: gen/Hash_vectors.v theories/Base.vio theories/Hash.vio
+gen/Hash_vectors.vos gen/Hash_vectors.vok gen/Hash_vectors.required_vos: gen/Hash_vectors.v theories/Base.vos theories/Hash.vos
 theories/Base.vo theories/Base.glob theories/Base.v.beautified theories/Base.required_vo: theories/Base.v 
 theories/Base.vio: theories/Base.v 
 theories/Base.vos theories/Base.vok theories/Base.required_vos: theories/Base.v 
 theories/Vu64.vo theories/Vu64.glob theories/Vu64.v.beautified theories/Vu64.required_vo: theories/Vu64.v theories/Base.vo
 theories/Vu64.vio: theories/Vu64.v theories/Base.vio
 theories/Vu64.vos theories/Vu64.vok theories/Vu64.required_vos: theories/Vu64.v theories/Base.vos
+theories/Vu64_proofs.vo theories/Vu64_proofs.glob theories/Vu64_proofs.v.beautified theories/Vu64_proofs.required_vo: theories/Vu64_proofs.v theories/Base.vo theories/Vu64.vo
+theories/Vu64_proofs.vio: theories/Vu64_proofs.v theories/Base.vio theories/Vu64.vio
+theories/Vu64_proofs.vos theories/Vu64_proofs.vok theories/Vu64_proofs.required_vos: theories/Vu64_proofs.v theories/Base.vos theories/Vu64.vos
 theories/Hash.vo theories/Hash.glob theories/Hash.v.beautified theories/Hash.required_vo: theories/Hash.v theories/Base.vo
 theories/Hash.vio: theories/Hash.v theories/Base.vio
 theories/Hash.vos theories/Hash.vok theories/Hash.required_vos: theories/Hash.v theories/Base.vos
 theories/KeyTypes.vo theories/KeyTypes.glob theories/KeyTypes.v.beautified theories/KeyTypes.required_vo: theories/KeyTypes.v theories/Base.vo theories/Vu64.vo gen/Consts.vo
 theories/KeyTypes.vio: theories/KeyTypes.v theories/Base.vio theories/Vu64.vio gen/Consts.vio
 theories/KeyTypes.vos theories/KeyTypes.vok theories/KeyTypes.required_vos: theories/KeyTypes.v theories/Base.vos theories/Vu64.vos gen/Consts.vos
+theories/KeyTypes_proofs.vo theories/KeyTypes_proofs.glob theories/KeyTypes_proofs.v.beautified theories/KeyTypes_proofs.required_vo: theories/KeyTypes_proofs.v theories/Base.vo theories/Vu64.vo theories/KeyTypes.vo theories/Vu64_proofs.vo
+theories/KeyTypes_proofs.vio: theories/KeyTypes_proofs.v theories/Base.vio theories/Vu64.vio theories/KeyTypes.vio theories/Vu64_proofs.vio
+theories/KeyTypes_proofs.vos theories/KeyTypes_proofs.vok theories/KeyTypes_proofs.required_vos: theories/KeyTypes_proofs.v theories/Base.vos theories/Vu64.vos theories/KeyTypes.vos theories/Vu64_proofs.vos
+theories/C10_lemmas.vo theories/C10_lemmas.glob theories/C10_lemmas.v.beautified theories/C10_lemmas.required_vo: theories/C10_lemmas.v theories/Base.vo theories/Vu64.vo theories/Vu64_proofs.vo theories/KeyTypes.vo theories/KeyTypes_proofs.vo theories/Hash.vo
+theories/C10_lemmas.vio: theories/C10_lemmas.v theories/Base.vio theories/Vu64.vio theories/Vu64_proofs.vio theories/KeyTypes.vio theories/KeyTypes_proofs.vio theories/Hash.vio
+theories/C10_lemmas.vos theories/C10_lemmas.vok theories/C10_lemmas.required_vos: theories/C10_lemmas.v theories/Base.vos theories/Vu64.vos theories/Vu64_proofs.vos theories/KeyTypes.vos theories/KeyTypes_proofs.vos theories/Hash.vos
 theories/Sizing.vo theories/Sizing.glob theories/Sizing.v.beautified theories/Sizing.required_vo: theories/Sizing.v theories/Base.vo theories/Vu64.vo gen/Consts.vo
 theories/Sizing.vio: theories/Sizing.v theories/Base.vio theories/Vu64.vio gen/Consts.vio
 theories/Sizing.vos theories/Sizing.vok theories/Sizing.required_vos: theories/Sizing.v theories/Base.vos theories/Vu64.vos gen/Consts.vos
+theories/Sizing_proofs.vo theories/Sizing_proofs.glob theories/Sizing_proofs.v.beautified theories/Sizing_proofs.required_vo: theories/Sizing_proofs.v theories/Base.vo theories/Vu64.vo gen/Consts.vo theories/Sizing.vo
+theories/Sizing_proofs.vio: theories/Sizing_proofs.v theories/Base.vio theories/Vu64.vio gen/Consts.vio theories/Sizing.vio
+theories/Sizing_proofs.vos theories/Sizing_proofs.vok theories/Sizing_proofs.required_vos: theories/Sizing_proofs.v theories/Base.vos theories/Vu64.vos gen/Consts.vos theories/Sizing.vos
 theories/Alloc.vo theories/Alloc.glob theories/Alloc.v.beautified theories/Alloc.required_vo: theories/Alloc.v theories/Base.vo theories/Vu64.vo gen/Consts.vo theories/Sizing.vo
 theories/Alloc.vio: theories/Alloc.v theories/Base.vio theories/Vu64.vio gen/Consts.vio theories/Sizing.vio
 theories/Alloc.vos theories/Alloc.vok theories/Alloc.required_vos: theories/Alloc.v theories/Base.vos theories/Vu64.vos gen/Consts.vos theories/Sizing.vos
@@ -52,3 +67,9 @@ theories/Bulk.vos theories/Bulk.vok theories/Bulk.required_vos: theories/Bulk.v 
 theories/Db.vo theories/Db.glob theories/Db.v.beautified theories/Db.required_vo: theories/Db.v theories/Base.vo theories/Vu64.vo theories/KeyTypes.vo gen/Consts.vo theories/Sizing.vo theories/Alloc.vo theories/Htx.vo theories/Store.vo theories/Iter.vo theories/Stats.vo theories/Layout.vo theories/Bulk.vo
 theories/Db.vio: theories/Db.v theories/Base.vio theories/Vu64.vio theories/KeyTypes.vio gen/Consts.vio theories/Sizing.vio theories/Alloc.vio theories/Htx.vio theories/Store.vio theories/Iter.vio theories/Stats.vio theories/Layout.vio theories/Bulk.vio
 theories/Db.vos theories/Db.vok theories/Db.required_vos: theories/Db.v theories/Base.vos theories/Vu64.vos theories/KeyTypes.vos gen/Consts.vos theories/Sizing.vos theories/Alloc.vos theories/Htx.vos theories/Store.vos theories/Iter.vos theories/Stats.vos theories/Layout.vos theories/Bulk.vos
+Props/C10.vo Props/C10.glob Props/C10.v.beautified Props/C10.required_vo: Props/C10.v theories/Base.vo theories/Vu64.vo theories/KeyTypes.vo theories/KeyTypes_proofs.vo theories/C10_lemmas.vo
+Props/C10.vio: Props/C10.v theories/Base.vio theories/Vu64.vio theories/KeyTypes.vio theories/KeyTypes_proofs.vio theories/C10_lemmas.vio
+Props/C10.vos Props/C10.vok Props/C10.required_vos: Props/C10.v theories/Base.vos theories/Vu64.vos theories/KeyTypes.vos theories/KeyTypes_proofs.vos theories/C10_lemmas.vos
+Props/C09.vo Props/C09.glob Props/C09.v.beautified Props/C09.required_vo: Props/C09.v theories/Base.vo theories/Vu64.vo gen/Consts.vo theories/Sizing.vo theories/Sizing_proofs.vo
+Props/C09.vio: Props/C09.v theories/Base.vio theories/Vu64.vio gen/Consts.vio theories/Sizing.vio theories/Sizing_proofs.vio
+Props/C09.vos Props/C09.vok Props/C09.required_vos: Props/C09.v theories/Base.vos theories/Vu64.vos gen/Consts.vos theories/Sizing.vos theories/Sizing_proofs.vos
